@@ -1025,9 +1025,21 @@ def cycles_are_cut(F, res, sccs=None, rule="Q10"):
     else:
         dq = FL.Defs(cq)
         looks = [(b, t) for b, t in cq.calls() if (callee(t) or "").endswith("file_for_module_name")]
-        res.floor("module look-ups in import_closure_query", len(looks), 1)
-    for k, (b, t) in enumerate(looks):
-        dep = FL.depends(F, cq, dq, t["args"][-1], use_bb=b)
+        # the look-up may sit in a closure handed to an adaptor over the import list (`.filter_map(|(_, import)| map.file_for(..))`):
+        # then the list is whatever that adaptor is applied to
+        hosted = []
+        for cp in F.closures_of(cq.path):
+            cf = F.fns.get(cp)
+            if cf is None or not cf.blocks or not any((callee(t2) or "").endswith("file_for_module_name") for _b2, t2 in cf.calls()):
+                continue
+            for b, t in cq.calls():
+                for a in t["args"]:
+                    oa = dq.origin_op(a) if isinstance(a, dict) and "k" not in a else {}
+                    if oa.get("k") == "agg" and oa["rv"].get("closure") == cp:
+                        hosted.append((b, t))
+        res.floor("module look-ups in import_closure_query", len(looks) + len(hosted), 1)
+    for k, (b, t) in enumerate(looks + [(b_, dict(t_, hosted=True)) for b_, t_ in (hosted if cq is not None and cq.blocks else [])]):
+        dep = FL.depends(F, cq, dq, t["args"][0] if t.get("hosted") else t["args"][-1], use_bb=b)
         whole = any(x.endswith("module_imports") for x in dep["calls"])
         sel = sorted(x for x in dep["calls"] if x.rsplit("::", 1)[-1] in ("unqualified_imports", "filter", "filter_map", "take", "skip", "take_while",
                                                                            "skip_while", "find", "first", "last", "nth", "step_by"))
